@@ -202,3 +202,31 @@ def check_none_defaults(ctx, rule: str, fns: Sequence[FuncInfo]) -> int:
             else:
                 ctx.ok(rule, fn, st, f"test on `{p}` does not distinguish None from other values", nontrivial=False)
     return count
+
+
+def analysis_owned_solver_object(fn: FuncInfo, recv) -> bool:
+    """The solver object is looked up in model.constraints / model.variables by a name with a literal prefix
+    (``"constraint_{}".format(id)``, ``f"auxiliary_{id}"``, ``"ind_" + id``): rows and columns that mirror model state are
+    named by the bare metabolite / reaction id, so such an object was added by an analysis helper, not by the model."""
+    if not isinstance(recv, ast.Name):
+        return False
+    defs = [n for n in walk_local(fn.node) if isinstance(n, ast.Assign) and len(n.targets) == 1 and isinstance(n.targets[0], ast.Name) and n.targets[0].id == recv.id]
+    if len(defs) != 1:
+        return False
+    v = defs[0].value
+    key = None
+    if isinstance(v, ast.Call) and isinstance(v.func, ast.Attribute) and v.func.attr == "get" and norm(v.func.value).split(".")[-1] in ("constraints", "variables") and v.args:
+        key = v.args[0]
+    elif isinstance(v, ast.Subscript) and norm(v.value).split(".")[-1] in ("constraints", "variables"):
+        key = v.slice
+    if key is None:
+        return False
+    if isinstance(key, ast.JoinedStr):
+        first = key.values[0] if key.values else None
+        return isinstance(first, ast.Constant) and isinstance(first.value, str) and len(first.value.strip("_")) >= 3
+    if isinstance(key, ast.Call) and isinstance(key.func, ast.Attribute) and key.func.attr == "format" and isinstance(key.func.value, ast.Constant):
+        t = str(key.func.value.value)
+        return "{" in t and len(t.split("{")[0].strip("_")) >= 3
+    if isinstance(key, ast.BinOp) and isinstance(key.op, ast.Add) and isinstance(key.left, ast.Constant) and isinstance(key.left.value, str):
+        return len(key.left.value.strip("_")) >= 3
+    return False
